@@ -61,8 +61,8 @@ class ToReply (β : Type) where
   reply : β → String
 export ToReply (reply)
 
-instance : ToReply Float := ⟨fun x => "f:" ++ floatBitsStr x⟩
-instance : ToReply Int := ⟨fun x => "i:" ++ toString x⟩
+instance : ToReply Float := ⟨fun x => if Float.isPanicNaN x then "panic" else "f:" ++ floatBitsStr x⟩
+instance : ToReply Int := ⟨fun x => if x ≤ -(2 ^ 190) ∨ x ≥ 2 ^ 190 then "panic" else "i:" ++ toString x⟩
 instance : ToReply Bool := ⟨fun x => if x then "b:1" else "b:0"⟩
 instance : ToReply Unit := ⟨fun _ => "unit"⟩
 instance {β} [ToReply β] : ToReply (Option β) := ⟨fun
